@@ -39,6 +39,8 @@ THEOREMS = [
     "C27_observed_order_is_journal_prefix",
     "C27_observed_order_guard_needed",
     "C27_table_source_shape",
+    "C27_recovered_continues_any_stops",
+    "C27_orphan_purge_once_per_life",
 ]
 EXPLANATION = (
     "PARTIAL. Lean model WfModel/Journal.lean: (A) the workflow_journal table with the five SqliteJournalCrud statements, "
@@ -450,6 +452,7 @@ def check_history(life: list, rows_at_boot: list, label: str, case: dict, out: O
     prev = [k for (_s, k) in rows_at_boot]
     rets: list[str] = []
     fallback = False
+    purges = 0
     for i, w in enumerate(life):
         rows = _table(w)
         keys = [k for (_s, k) in rows]
@@ -467,6 +470,12 @@ def check_history(life: list, rows_at_boot: list, label: str, case: dict, out: O
             bad = ("observed_not_journal_prefix", f"handed to the loop {rets}, journal {keys}, _replay_index {w.idx_after}")
         elif not fallback and w.idx_after >= len(keys) and rets != keys:
             bad = ("observed_not_whole_journal_after_replay", f"handed to the loop {rets}, journal {keys}")
+        # the orphan purge (C27_orphan_purge_once_per_life): at most once per life, never in a call that hands out a replayed completion
+        purges += 1 if w.purged else 0
+        if bad is None and purges > 1:
+            bad = ("orphan_purge_twice_in_one_life", f"purge_operations_from ran again (function id at entry {w.fid_at_entry})")
+        elif bad is None and w.purged and w.expected is not None and w.expected in w.inflight and w.returned is not None:
+            bad = ("orphan_purge_in_replaying_call", f"the call replayed {w.returned} and purged operation outputs beyond {w.fid_at_entry}")
         if bad is not None:
             out.violations.append(Violation(f"C27/history_invariant[{bad[0]}]", f"{label}: wait call {i}: {bad[1]}", case))
             return
@@ -475,6 +484,8 @@ def check_history(life: list, rows_at_boot: list, label: str, case: dict, out: O
     out.count("hist_calls_checked", len(life))
     if fallback:
         out.count("hist_lives_with_fallback")
+    if purges:
+        out.count("hist_lives_with_orphan_purge")
 
 
 def k2(env: Env, out: Outcome, workdir: str) -> None:
